@@ -16,7 +16,7 @@ from __future__ import annotations
 import itertools
 
 from .core import AnalysisError
-from .lib_C04 import ModelFault, ModelType, Opaque, namespace
+from .lib_C04 import ModelFault, ModelType, namespace
 
 FILL = "<never written>"
 ZSTD = 32015
